@@ -93,3 +93,26 @@ print("KF-C10-18: 200 response stored in bundle:", machine._get_target_for_resul
 target = schema2["/t/{id}"]["GET"]
 case = target.Case(path_parameters={"id": "s t/u"})  # what into_step_input passes on as explicit `path_parameters`
 print("KF-C10-19: explicit path parameter 's t/u' ->", requests.Request(**case.as_transport_kwargs()).prepare().url)
+
+# ---- review round 2 -------------------------------------------------------------------------------------------------------
+# KF-C10-R1  a request header is the same header in any letter case (RFC 7230 3.2; evaluate() itself looks it up case-insensitively),
+# but OpenApiLink._normalize_parameters compares `p.name == node.parameter`: the link below is an InvalidTransition
+# ("references non-existent header parameter `x-id`") and as_state_machine() refuses the whole document
+RAW3 = {"openapi": "3.0.3", "info": {"title": "t", "version": "1"}, "paths": {
+    "/src": {"post": {"operationId": "src", "parameters": [{"name": "X-Id", "in": "header", "schema": {"type": "string"}}],
+                      "responses": {"201": {"description": "ok", "links": {
+                          "L": {"operationId": "dst", "parameters": {"path.id": "$request.header.x-id"}}}}}}},
+    "/dst/{id}": {"get": {"operationId": "dst", "parameters": [{"name": "id", "in": "path", "required": True, "schema": {"type": "string"}},
+                                                               {"name": "X-Id", "in": "header", "schema": {"type": "string"}}],
+                          "responses": {"200": {"description": "ok"}}}}}}
+schema3 = schemathesis.openapi.from_dict(RAW3).configure(base_url="http://127.0.0.1")
+for _, result in get_all_links(schema3["/src"]["POST"]):
+    print("KF-C10-R1:", type(result).__name__, [e.message for e in result.err().errors] if type(result).__name__ == "Err" else "")
+# KF-C10-R2  a link parameter `header.x-id` for a target that declares `X-Id`: the generated `X-Id` is not excluded
+# (get_parameters_value: exclude=value.keys(), exact spelling) and replaces the link value in the case-insensitive Case.headers
+import hypothesis
+dst = schema3["/dst/{id}"]["GET"]  # what into_step_input does with the evaluated link parameters:
+strategy = dst.as_strategy(path_parameters={"id": "7"}, headers={"x-id": "from-link"})
+case = hypothesis.find(strategy, lambda c: "X-Id" in list(c.headers or {}), settings=hypothesis.settings(database=None))
+sent = requests.Request(**case.as_transport_kwargs()).prepare().headers
+print("KF-C10-R2: Case.headers =", dict(case.headers), "-> sent X-Id =", repr(sent["X-Id"]), "(expected 'from-link')")
